@@ -164,6 +164,18 @@ CHECKS["C07"] = dict(
     technique="Coq proof (recursive-descent parser inverts the printer: induction over the nested tree with token-class lemmas; 256-case character facts by vm_compute) + vm_compute correspondence on generated trees and texts",
     design="7/C07")
 
+CHECKS["C08"] = dict(
+    text="Machine-checked proof (Coq): for EVERY attribute tree (any nesting, width, number of values; strings without double quote "
+         "and backslash incl. empty, blanks, ; , { }; number tokens) the character-level model of DASParser applied to the model of "
+         "das()/build_attributes returns the tree; value lists and string values in isolation. Printer, parser and the executable model "
+         "of add_attributes (flat id, nested id, hand-back of leaves, NC_GLOBAL/DODS_EXTRA flattening, globals) are compared with "
+         "pydap on generated datasets, on (variable tree, attribute dict) pairs with opaque leaves and on reference-rendered "
+         "foreign DAS; a real client (open_url on an in-process handler) is compared with the served attributes to six digits.",
+    note=TB + "Numbers are DAS tokens in the model: '%.6g' and ast.literal_eval are outside it (oracle only). add_attributes is modelled "
+              "and compared, its placement theorem is not proved (partial). ASCII; attribute names are identifiers.",
+    technique="Coq proof (character-level parser inverts the printer: induction over the nested attribute tree, regexp alternatives as total functions) + vm_compute correspondence incl. the placement algorithm + end-to-end client oracle",
+    design="7/C08")
+
 NOT_YET = {
 }
 
